@@ -85,11 +85,16 @@ def main():
     ids = a.ids or sorted(x for x in os.listdir(base) if os.path.exists(os.path.join(base, x, "meta.json")))
     bad = 0
     jobs = 1 if a.in_place else a.jobs
+    respath = os.path.join(base, "results.json")
+    results = json.load(open(respath)) if os.path.exists(respath) else {}
+    head = subprocess.run(["git", "-C", "/repo", "rev-parse", "--short", "HEAD"], capture_output=True, text=True).stdout.strip()
     with cf.ThreadPoolExecutor(jobs) as ex:
         for sid, status, info in ex.map(lambda s: run_one(s, a.tier, a.in_place), ids):
             print(f"{status:14s} {sid}: {info[:400]}")
             sys.stdout.flush()
             bad += status != "CAUGHT"
+            results[sid] = {"status": status, "tier": a.tier, "repo_head": head, "detail": info[:300]}
+    json.dump(results, open(respath, "w"), indent=1, sort_keys=True)
     print(f"{len(ids) - bad}/{len(ids)} seeded changes caught")
     return 1 if bad else 0
 
